@@ -9,6 +9,7 @@ import (
 	"time"
 
 	openfgav1 "github.com/openfga/api/proto/openfga/v1"
+	"google.golang.org/protobuf/proto"
 
 	"github.com/openfga/openfga/pkg/storage"
 	"github.com/openfga/openfga/pkg/tuple"
@@ -67,7 +68,8 @@ func subjStr(s Subj) string {
 
 var c13Objects = []Obj{{"doc", "1"}, {"doc", "2"}, {"doc", "10"}, {"group", "1"}, {"group", "2"}}
 var c13Rels = []string{"viewer", "member", "parent"}
-var c13Users = []Subj{{"user", "1", ""}, {"user", "2", ""}, {"user", "*", ""}, {"group", "1", "member"}, {"group", "1", ""}, {"group", "2", "member"}, {"group", "1", "admin"}, {"group", "*", ""}, {"doc", "1", ""}, {"doc", "1", "viewer"}}
+var c13Users = []Subj{{"user", "1", ""}, {"user", "2", ""}, {"user", "*", ""}, {"group", "1", "member"}, {"group", "1", ""}, {"group", "2", "member"}, {"group", "1", "admin"}, {"group", "*", ""}, {"doc", "1", ""}, {"doc", "1", "viewer"},
+	{"userx", "1", ""}, {"userx", "1", "member"}, {"use", "1", ""}} // types that are prefixes of one another
 var c13Conds = []string{"", "c1", "c2"}
 
 func c13Ctx(r *rand.Rand, c string) Ctx {
@@ -85,11 +87,31 @@ func c13Ctx(r *rand.Rand, c string) Ctx {
 	return Ctx{"allowed": ListVal(StrVal("a"), StrVal("b")), "x": NumVal(-5)}
 }
 
-func drainTuples(ctx context.Context, it storage.TupleIterator) ([]Tuple, error) {
+// drainTuples reads the iterator to its end; with peek it looks at every element through Head first
+// (the element Head shows and the one Next then returns must be the same tuple; both are recorded if not).
+func drainTuples(ctx context.Context, it storage.TupleIterator, peek bool) ([]Tuple, error) {
 	defer it.Stop()
 	out := []Tuple{}
 	for {
+		var h *openfgav1.Tuple
+		if peek {
+			var herr error
+			h, herr = it.Head(ctx)
+			if herr != nil {
+				if errors.Is(herr, storage.ErrIteratorDone) {
+					return out, nil
+				}
+				return out, herr
+			}
+			out = append(out, TupleFromProto(h.GetKey()).Norm())
+		}
 		t, err := it.Next(ctx)
+		if peek && err == nil {
+			if !proto.Equal(h.GetKey(), t.GetKey()) {
+				out = append(out, TupleFromProto(t.GetKey()).Norm())
+			}
+			continue
+		}
 		if err != nil {
 			if errors.Is(err, storage.ErrIteratorDone) {
 				return out, nil
@@ -200,6 +222,7 @@ func C13(run *Run) {
 			if f.OIDs.IDs == nil {
 				f.OIDs.IDs = []string{}
 			}
+			peek := r.Intn(2) == 0
 			for _, b := range backends {
 				ds := envs[b].DS
 				ev := &rdEv{E: "Read", Backend: b, Op: op, F: f, Sorted: sorted, Got: []Tuple{}}
@@ -213,7 +236,7 @@ func C13(run *Run) {
 					var it storage.TupleIterator
 					it, err = ds.Read(ctx, store, storage.ReadFilter{Object: objStr(f.Obj), Relation: f.Rel, User: subjStr(f.User), Conditions: conds}, storage.ReadOptions{})
 					if err == nil {
-						ev.Got, err = drainTuples(ctx, it)
+						ev.Got, err = drainTuples(ctx, it, peek)
 					}
 				case "ReadPage":
 					from := ""
@@ -252,7 +275,7 @@ func C13(run *Run) {
 					var it storage.TupleIterator
 					it, err = ds.ReadUsersetTuples(ctx, store, storage.ReadUsersetTuplesFilter{Object: objStr(f.Obj), Relation: f.Rel, AllowedUserTypeRestrictions: restr, Conditions: conds}, storage.ReadUsersetTuplesOptions{})
 					if err == nil {
-						ev.Got, err = drainTuples(ctx, it)
+						ev.Got, err = drainTuples(ctx, it, peek)
 					}
 				case "ReadStartingWithUser":
 					var uf []*openfgav1.ObjectRelation
@@ -270,7 +293,7 @@ func C13(run *Run) {
 					it, err = ds.ReadStartingWithUser(ctx, store, storage.ReadStartingWithUserFilter{ObjectType: f.Obj.T, Relation: f.Rel, UserFilter: uf, ObjectIDs: oids, Conditions: conds},
 						storage.ReadStartingWithUserOptions{WithResultsSortedAscending: sorted})
 					if err == nil {
-						ev.Got, err = drainTuples(ctx, it)
+						ev.Got, err = drainTuples(ctx, it, peek)
 					}
 				}
 				if err != nil {
